@@ -76,7 +76,7 @@ func c09R2R3(p *core.Prog, r *core.Report) {
 	primWrite := func(c ssa.CallInstruction) bool {
 		g := core.CalleeFn(c)
 		cal := core.Callee(c)
-		return (g != nil && g.Name() == "tarWriteHeader") || (cal != nil && core.IsMethod(cal, "archive/tar", "Writer", "Write")) || (cal != nil && core.IsFunc(cal, "io", "Copy"))
+		return (g != nil && canon(g) == "tarWriteHeader") || (cal != nil && core.IsMethod(cal, "archive/tar", "Writer", "Write")) || (cal != nil && core.IsFunc(cal, "io", "Copy"))
 	}
 	// unexported helpers that write to the archive count as a write where they are called
 	writers := map[*ssa.Function]bool{}
@@ -134,7 +134,7 @@ func c09R2R3(p *core.Prog, r *core.Report) {
 	// R3: name from tarOCILayoutDescPath(desc param); ManifestGet with WithManifestDesc(desc); BlobGet(ctx, r, desc)
 	nameOK := false
 	core.Calls(fn, func(c ssa.CallInstruction) {
-		if cal := core.Callee(c); cal != nil && core.IsModFunc(cal, ".", "tarOCILayoutDescPath") {
+		if cal := core.Callee(c); cal != nil && cal.Pkg() != nil && cal.Pkg().Path() == modPath(".") && canonObj(cal) == "tarOCILayoutDescPath" {
 			for _, o := range core.Origins(c.Common().Args[0], core.SliceOpts{FieldsThrough: true}) {
 				if o.Kind == core.OParam && o.Param == descParam {
 					nameOK = true
@@ -314,7 +314,7 @@ func c09R4(p *core.Prog, r *core.Report) {
 	var pushCall, dockerPut ssa.Instruction
 	core.Calls(imp, func(c ssa.CallInstruction) {
 		if g := core.CalleeFn(c); g != nil {
-			if g.Name() == "tarReadAll" {
+			if canon(g) == "tarReadAll" {
 				if call, ok := c.(*ssa.Call); ok {
 					reads = append(reads, call)
 				}
